@@ -1,9 +1,17 @@
 package props
 
 import (
+	"bytes"
+	"encoding/json"
 	"fmt"
 	"math"
+	"os"
+	"os/exec"
+	"runtime"
 	"sort"
+	"strings"
+	"sync"
+	"sync/atomic"
 
 	"github.com/scigolib/hdf5/internal/core"
 	"github.com/scigolib/hdf5/internal/zzverif/ev"
@@ -281,7 +289,182 @@ func c20Sweep(c *ev.Ctx, f *lpFormat, lo, hi uint64) {
 
 const c20Blocks = 4096 // thorough: 2^32 / 2^20
 
+var c20FirstUse sync.Once
+
+// c20Concurrent makes this process's first conversions from many goroutines at once (every
+// shard process does this before anything else): a conversion is a pure function of its
+// argument, so what it returns may not depend on who else is converting at the time, first
+// use included. Every goroutine decodes every code and re-encodes it.
+type c20Bad struct {
+	Format string `json:"format"`
+	Code   uint32 `json:"code"`
+	Got    string `json:"decoded"`
+	Back   uint32 `json:"re_encoded"`
+	Sym    string `json:"symptom"`
+}
+
+const c20G = 48
+
+func c20ConcurrentFirstUse(maxCodes int) []c20Bad {
+	var mu sync.Mutex
+	var bads []c20Bad
+	var wg sync.WaitGroup
+	var ready, goFlag atomic.Int32
+	for g := 0; g < c20G; g++ {
+		wg.Add(1)
+		go func(g int) {
+			defer wg.Done()
+			ready.Add(1)
+			for goFlag.Load() == 0 {
+				runtime.Gosched()
+			}
+			for _, f := range lpFormats {
+				n := f.ncodes
+				for k := 0; k < n && k < maxCodes; k++ {
+					code := uint32((k*97 + g*31) % n)
+					if g%2 == 1 {
+						code = uint32(n-1) - code
+					}
+					want, cl := f.refValue(code)
+					got := f.dec(code)
+					ok := false
+					switch cl {
+					case 0, 1:
+						ok = float64(got) == want && math.Signbit(float64(got)) == math.Signbit(want)
+					default:
+						ok = got != got
+					}
+					if !ok {
+						mu.Lock()
+						bads = append(bads, c20Bad{f.name, code, f32s(got), 0, "decode"})
+						mu.Unlock()
+						continue
+					}
+					if cl == 0 {
+						if back := f.enc(got); back != code {
+							mu.Lock()
+							bads = append(bads, c20Bad{f.name, code, f32s(got), back, "roundtrip"})
+							mu.Unlock()
+						}
+					}
+				}
+			}
+		}(g)
+	}
+	for ready.Load() < c20G {
+		runtime.Gosched()
+	}
+	goFlag.Store(1)
+	wg.Wait()
+	return bads
+}
+
+// C20FirstUseLines is the body of the "c20first" worker process: one JSON line per wrong result.
+func C20FirstUseLines() []string {
+	var out []string
+	for _, b := range c20ConcurrentFirstUse(2048) {
+		j, _ := json.Marshal(b)
+		out = append(out, "C20BAD "+string(j))
+	}
+	return out
+}
+
+// c20Concurrent makes this process's first conversions from many goroutines at once (every
+// shard process does this before anything else): a conversion is a pure function of its
+// argument, so what it returns may not depend on who else is converting at the time, first
+// use included. Every goroutine decodes every code and re-encodes it.
+func c20Concurrent(c *ev.Ctx) {
+	bads := c20ConcurrentFirstUse(1 << 16)
+	n := int64(0)
+	for _, f := range lpFormats {
+		n += int64(f.ncodes)
+	}
+	c.Count("concurrent_first_use:processes", 1)
+	c.Count("concurrent_first_use:conversions", n*c20G)
+	c20ReportBads(c, bads)
+}
+
+func c20ReportBads(c *ev.Ctx, bads []c20Bad) {
+	seen := map[string]bool{}
+	for _, b := range bads {
+		k := b.Format + ":concurrent-first-use:" + b.Sym
+		if seen[k] {
+			continue
+		}
+		seen[k] = true
+		c.Violation(k, map[string]any{"first": b, "goroutines": c20G, "wrong_results": len(bads)})
+	}
+}
+
+// c20Workers (case 0): fresh worker processes, each making its first conversions from 48
+// goroutines; when the -race build of the harness exists they run under the race detector,
+// which reports unsynchronised shared state of the conversions whatever the timing was.
+func c20Workers(c *ev.Ctx) {
+	bin, race := ev.RaceBinary(), true
+	if bin == "" {
+		bin, _ = os.Executable()
+		race = false
+	}
+	n := c.Pick(8, 40)
+	type wres struct {
+		so, se string
+		err    error
+	}
+	res := make([]wres, n)
+	for lo := 0; lo < n; lo += 8 {
+		var wg sync.WaitGroup
+		for i := lo; i < lo+8 && i < n; i++ {
+			wg.Add(1)
+			go func(i int) {
+				defer wg.Done()
+				cmd := exec.Command(bin, "c20first")
+				var so, se bytes.Buffer
+				cmd.Stdout, cmd.Stderr = &so, &se
+				cmd.Env = append(os.Environ(), "GORACE=halt_on_error=0 exitcode=0", fmt.Sprintf("GOMAXPROCS=%d", []int{16, 4, 2, 8}[i%4]))
+				err := cmd.Run()
+				res[i] = wres{so.String(), se.String(), err}
+			}(i)
+		}
+		wg.Wait()
+	}
+	for _, w := range res {
+		if w.err != nil {
+			c.Inconclusive("c20first worker failed: " + w.err.Error() + " " + tailStr(w.se, 300))
+			return
+		}
+		c.Count("concurrent_first_use:worker_processes", 1)
+		if race {
+			c.Count("concurrent_first_use:worker_processes_under_-race", 1)
+		}
+		var bads []c20Bad
+		for _, l := range strings.Split(w.so, "\n") {
+			if strings.HasPrefix(l, "C20BAD ") {
+				var b c20Bad
+				if json.Unmarshal([]byte(l[7:]), &b) == nil {
+					bads = append(bads, b)
+				}
+			}
+		}
+		c20ReportBads(c, bads)
+		for k, text := range ev.RaceKeys(w.se) {
+			c.Count("concurrent_first_use:race_reports", 1)
+			c.Violation("race:"+k, map[string]any{"report": tailStr(text, 4000)})
+		}
+	}
+}
+
+func tailStr(s string, n int) string {
+	if len(s) > n {
+		return s[:n]
+	}
+	return s
+}
+
 func c20Run(c *ev.Ctx) {
+	c20FirstUse.Do(func() { c20Concurrent(c) })
+	if c.Index == 0 {
+		c20Workers(c)
+	}
 	i := c.Index
 	switch {
 	case i < 3:
@@ -360,7 +543,7 @@ func c20Run(c *ev.Ctx) {
 var C20 = &ev.Property{
 	ID:    "C20",
 	Level: "exploration",
-	Rule: "case 0-2: every code of E4M3/E5M2/bfloat16 (decode exactness, code->float32->code, byte codec) plus the float32 neighbours (±1..3 ulp and ± every single low bit 2^k ulp, k=2..22, both signs) of every representable value, every midpoint between adjacent representable values and the overflow band; " +
+	Rule: "every shard process first converts from 48 goroutines at once (its very first conversions: every code of the three formats decoded and re-encoded against the reference), and case 0 starts 8 (thorough 40) fresh worker processes built with -race that do the same, so that shared state behind the conversions is reported by the race detector whatever the timing; case 0-2: every code of E4M3/E5M2/bfloat16 (decode exactness, code->float32->code, byte codec) plus the float32 neighbours (±1..3 ulp and ± every single low bit 2^k ulp, k=2..22, both signs) of every representable value, every midpoint between adjacent representable values and the overflow band; " +
 		"cases 3-258: per float32 exponent field 4096 mantissa strata × both signs (incl. all NaN payload strata); thorough adds 4096 blocks of 2^20 consecutive bit patterns = all 2^32 float32 values per format with a monotonicity sweep. " +
 		"distinct_nontrivial counts distinct (by construction) codes + float32 bit patterns evaluated per format; every input is non-trivial (each is a conversion with an exact reference answer).",
 	Assumptions: []string{
